@@ -591,9 +591,10 @@ package builder
 //@   at call NewError#1 assert skip ==> ctx.Conf.IgnoreMissing && dynIs[*xtype.NoMatchError](err)
 
 //@ func parseAutoMap
-//@   props C03 C05
+//@   props C03 C05 C13
 //@   propagates
-//@   requires@C13 MethodOK(ctx) && source != nil
+//@   requires@C13 MethodOK(ctx) && source != nil && source.Struct && xtype.TypeFieldsOK(source)
+//@   loop@C13 2 invariant innerSource != nil && innerSource.Struct && xtype.TypeFieldsOK(innerSource)
 
 //@ func MethodContext.Field
 //@   props C05 C13
